@@ -106,6 +106,10 @@ func write(b *strings.Builder, v ugo.Object, depth int) {
 	case *ugo.CompiledFunction, *ugo.Function, *ugo.BuiltinFunction:
 		b.WriteString("<fn>")
 	default:
+		if v.CanCall() {
+			b.WriteString("<fn>")
+			return
+		}
 		b.WriteString("<" + v.TypeName() + ":" + v.String() + ">")
 	}
 }
